@@ -10,3 +10,9 @@ CHECKS["C04"] = dict(
     note="Trusted: TLC; the engine simulator's force-timing model; one scalar variable (distanceZ of one atom) so geometry is the identity; observation of the count/gradient grids through the saved state text. Bounds: 3-4 bins, <= 6 steps exhaustive (9-14 in simulation / recorded runs), <= 3 runs. Multi-dimensional ABF, eABF/CZAR and hideJacobian with a non-zero Jacobian are not covered by this check.",
 )
 
+
+CHECKS["C05"] = dict(
+    technique="TLA+ spec (Meta.tla: hill list / pending iterator / off-grid list / grids vs. history of deposited hills) model-checked with TLC using exact dyadic Gaussians; behaviours replayed into the real library; recorded executions validated by TLC against MetaTrace.tla",
+    text="TLC exhaustively checks over all position histories on a half-bin lattice (including excursions beyond both boundaries), hill and grid frequencies, wide/narrow hills, grids on/off, keepHills, hard boundary, periodic variable, run boundaries and restarts, that the code-shaped mechanism reports exactly the sum of the hills prescribed by the schedule (tabulated ones at the bin centre, pending and off-grid ones analytically) - except where one of four named deviations of the unchanged tree is applicable, whose scope is itself an invariant. Conformance: replayed behaviours must reproduce the mechanism's energy, variable force and atom force at every call; recorded random executions are validated event by event.",
+    note="Trusted: TLC; dyadic-Gaussian lattice (sigma = 1/sqrt(8 ln 2) bins, closing factors applied by the harness); one scalar variable, hillWeight 1. Not covered here: well-tempered/ebMeta weights, expandBoundaries, rebinGrids, multi-dimensional and non-scalar variables. Known findings (offgrid-double-count, offgrid-buffer, restart-offgrid-hills-lost, restart-nogrid-hills-lost) are reproduced by the real code and reported as KNOWN-FINDING.",
+)
